@@ -14,7 +14,7 @@ package main
 //   create I W BITS         CreateWallet (entropy size BITS), remember its mnemonic as secret W
 //   newaddr I W std|stk     NewAddress                      -> ok NAME | err-gap | err
 //   list I W                keystore view: ex=.. in=.. + every managed address (by coordinates)
-//   glist I W               ledger view: GetAddresses of both classes  NAME:cls:used
+//   glist I W               ledger view: GetAddresses of both classes  NAME:cls:used (other-class entries only if used)
 //   found I W               managed addresses of W that have history on I's node chain
 //   export I W J            ExportWallet -> J               -> ok ex=.. in=..
 //   impks I J               ImportWallet(J)                 -> ok W | err-dup | err
@@ -351,6 +351,11 @@ func (x *ksExec) Exec(a []string) string {
 				u := 0
 				if d.Used {
 					u = 1
+				}
+				// an entry of the class the address was NOT issued in is shown only when flagged used
+				// (a record created by a payment stays behind, unused, after that payment is rolled back)
+				if ai, ok := e.addrs[n]; ok && ai.class != c && !d.Used {
+					continue
 				}
 				items = append(items, fmt.Sprintf("%s:%s:%d", n, c, u))
 			}
